@@ -32,6 +32,7 @@ RULE = ('(a) seeded expression trees to depth 4 over an adversarial operand pool
         'distinct by text + operands.')
 RULE += " Also: (e) recursion to depth 9000 in four shapes; (f) what library functions return (CSV with repeated header names and ragged rows, regex matches, parsed JSON, joins, ...) pushed through every operator and stringification; (g) systemFetch of arrays whose elements succeed, return null or raise; 18 host exception types incl. MemoryError / RecursionError; calls whose result cannot be allocated (stringRepeat('ab', 1e18)). MemoryError / RecursionError from exhausting the host are outside the property."
 RULE += ' Round 7: containers that contain themselves as operands (two container variables under one comparison / arithmetic operator, the same one twice included): a RecursionError from such an operand is an escape.'
+RULE += ' Round 8: every expression-string parameter of dataFilter / dataCalculatedField / dataJoin given text that is not an expression (12 texts, with and without a variables object, debug on and off); host and library calls that fail INSIDE such expression strings (reported once per failing call in debug mode, also with a variables object); wrong-typed arguments that cannot be shown in the failure message (nested deeper than the host can serialise, non-finite, self-containing) keep the exact documented failure value.'
 ASSUMPTIONS = [
     'integer exponents are never huge host ints (int ** int with ~2**200 exponents does not terminate and is not bounded by maxStatements; '
     'outside every listed property)', 'sizes/counts are either small or beyond the platform index range (no multi-gigabyte allocations)',
